@@ -18,7 +18,7 @@ using namespace QHttpEngine;
 
 void runConnectionOn(Server *server, Val &log, const Val &ops);
 
-static Val run_slot(const Val &c)
+static Val runSlot(const Val &c, bool multi)
 {
     Val log = Val::List();
     QObject scope;
@@ -53,10 +53,18 @@ static Val run_slot(const Val &c)
     }
     Server *server = new Server(&scope);
     server->setHandler(h);
-    runConnectionOn(server, log, c.at(1));
+    Val out = Val::List();
+    if (!multi) runConnectionOn(server, log, c.at(1));
+    else for (auto &ops : c.at(1).l) {           // several connections, one after the other, through the one handler
+        log = Val::List();
+        runConnectionOn(server, log, ops);
+        out.add(log);
+    }
     delete server;
     QCoreApplication::sendPostedEvents(nullptr, QEvent::DeferredDelete);
-    return log;
+    return multi ? out : log;
 }
+static Val run_slot(const Val &c) { return runSlot(c, false); }
+static Val run_slotm(const Val &c) { return runSlot(c, true); }
 
-void reg_slot() { registerFamily("slot", run_slot); }
+void reg_slot() { registerFamily("slot", run_slot); registerFamily("slotm", run_slotm); }
